@@ -254,9 +254,10 @@ DRead ==
 DLen == /\ Is("dlen") /\ Step /\ UNCHANGED <<wrs, rds>>
         /\ LET c == Named(Ev)  n == Nat8(Ev.v) IN InDomain(c, n) /\ Ev.ret = CLen(c, n)
 
-\* the function-pointer objects accept exactly the supported enumeration values
+\* the function-pointer objects accept (at least) the documented set of enumeration values; what they
+\* accept beyond it is their business - whatever they accept is then checked call by call (dwrite / dread / dlen)
 FuncNew == /\ Is("func_new") /\ Step /\ UNCHANGED <<wrs, rds>>
-           /\ (Ev.res = "ok") <=> Supported(EnumCode(Ev.en, Nat8(Ev.ep)))
+           /\ Supported(EnumCode(Ev.en, Nat8(Ev.ep))) => Ev.res = "ok"
 \* the statistics wrapper saw every value exactly once
 StatsCount == Is("stats_count") /\ Step /\ UNCHANGED <<wrs, rds>> /\ Ev.n = Ev.total
 
